@@ -8,6 +8,9 @@ from plasTeX.Base.LaTeX.Sectioning import SectionUtils
 
 class document(Environment, SectionUtils):
     level = Environment.DOCUMENT_LEVEL
+    # Always group the content into paragraphs (and thereby normalize the
+    # text), even if the document body contains no paragraph break at all
+    forcePars = True
 
     @property
     def title(self):
